@@ -576,15 +576,20 @@ package processor
 // the cut-off.  Ghost qsrTested: shouldProcessQSR was asked for the segment of
 // this iteration.
 //@ ghostdecl qsrTested int
+//@ ghostdecl qsrHandedOut int
 //@ func (*Searcher).getQSRSToProcess
 //@   props C05
 //@   assumecalleerequires
 //@   ghostinit ghost(0, "qsrTested") == 0
 //@   site callret s.shouldProcessQSR #1:
 //@     ghostset ghost(0, "qsrTested") = 1
+//@   site callret s.shouldProcessQSR #1:
+//@     ghostset ghost(0, "qsrHandedOut") = ite(result, 1, 0)
 //@   site call s.willProcessQSRCompletely #1:
 //@     assert [each-segment-met-is-tested-against-the-cut-off] ghost(0, "qsrTested") == 1 && arg1 == qsr
 //@     ghostset ghost(0, "qsrTested") = 0
+//@   site call s.unprocessedQSRs.Remove #1:
+//@     assert [no-segment-is-removed-without-having-been-handed-out] ghost(0, "qsrHandedOut") == 1 || uf("qsrStart", uint64, qsr) > uf("qsrEnd", uint64, qsr)
 //@   site return #5:
 //@     assert [the-walk-ends-only-at-the-end-of-the-list] e == nil
 //@ end
@@ -624,4 +629,29 @@ package processor
 //@   assumecalleerequires
 //@   site store dp.mergeSettings.numReturned #1:
 //@     assert [the-returned-counter-advances-by-the-size-of-the-batch-handed-on] implies(iqr != nil, value == dp.mergeSettings.numReturned + uint64(ghost(iqr, "iqrN")))
+//@ end
+
+// C05 (every matching record reaches the pipeline exactly once): the two cut-off
+// predicates of the searcher.  A segment is handed to a round when it REACHES the
+// cut-off (its end for newest-first, its start for oldest-first; inclusive), and
+// it is removed from the list of unprocessed segments when it lies ENTIRELY on
+// the released side of the cut-off.  The second implies the first for every
+// segment whose start is not after its end — so no segment is ever removed
+// without having been handed out (a one-instant segment exactly at the cut-off
+// included).
+//@ func (*Searcher).shouldProcessQSR
+//@   props C05
+//@   requires s != nil && qsr != nil
+//@   pure
+//@   ensures [newest-first-a-segment-that-reaches-the-cut-off-is-handed-out] implies(s.sortMode == recentFirst, result == (uf("qsrEnd", uint64, qsr) >= s.cutOffTimestampInMs))
+//@   ensures [oldest-first-a-segment-that-reaches-the-cut-off-is-handed-out] implies(s.sortMode == recentLast, result == (uf("qsrStart", uint64, qsr) <= s.cutOffTimestampInMs))
+//@   ensures [any-order-every-segment-is-handed-out] implies(s.sortMode != recentFirst && s.sortMode != recentLast, result)
+//@ end
+//@ func (*Searcher).willProcessQSRCompletely
+//@   props C05
+//@   requires s != nil && qsr != nil
+//@   pure
+//@   ensures implies(s.sortMode == recentFirst, result == (uf("qsrStart", uint64, qsr) >= s.cutOffTimestampInMs))
+//@   ensures implies(s.sortMode == recentLast, result == (uf("qsrEnd", uint64, qsr) <= s.cutOffTimestampInMs))
+//@   ensures implies(s.sortMode != recentFirst && s.sortMode != recentLast, result)
 //@ end
